@@ -287,7 +287,41 @@ def slots_table():
         if not sl or name.startswith("_"):
             continue  # abstract bases
         out.append((name, [a for a in sl if a != "source"]))
+    _check_scalar_or_name_slots(classes, out)
     return out
+
+
+def scalar_or_name_slot(kind, attr):
+    """replica of `Props.C18.scalarOrNameSlot` (Props/C18_cover.lean): untraversed slots that hold a scalar or `Name` nodes"""
+    return (attr in ("name", "alias", "operation", "block") or (kind, attr) == ("DirectiveDefinition", "locations")
+            or (attr == "value" and kind in ("BooleanValue", "EnumValue", "FloatValue", "IntValue", "StringValue", "Name")))
+
+
+def _check_scalar_or_name_slots(classes, table):
+    """ties `uncovered_partition` / `missed_children_today` to ast.py: a slot the Lean side classifies as scalar-or-Name must
+       not be annotated (in the class's `__init__`) with a node class other than `Name`."""
+    import inspect
+    import typing
+    import py_gql.lang.ast as A
+
+    def mentions(t, acc):
+        if inspect.isclass(t) and issubclass(t, A.Node):
+            acc.add(t.__name__)
+        for a in typing.get_args(t):
+            mentions(a, acc)
+        return acc
+
+    for kind, attrs in table:
+        try:
+            hints = typing.get_type_hints(classes[kind].__init__)
+        except Exception:  # noqa
+            continue
+        for a in attrs:
+            if a != "loc" and a in hints and scalar_or_name_slot(kind, a):
+                m = mentions(hints[a], set())
+                if m - {"Name"}:
+                    raise Shape("%s.%s is annotated with node class(es) %s but Props.C18.scalarOrNameSlot classifies it as "
+                                "scalar / Name (missed_children_today would hide an unvisited child)" % (kind, a, sorted(m)))
 
 
 def subclass_table():
